@@ -271,6 +271,9 @@ BATTERY_TASKS = [
     {"vars": [["cm", [0.0, 0.0], [1000.0, 1000.0]]], "obj": [{"fam": "abs", "p": {"shift": 0.0}}]},                # optimum on zero bounds
     {"vars": [["cm", [-5.0, -5.0, -5.0, -5.0], [5.0, 5.0, 5.0, 5.0]]], "obj": [{"fam": "hinge", "p": {"tol": 0.5}}]},  # zero region inside
     {"vars": [["c", -1.0, 0.0]], "obj": [{"fam": "hinge", "p": {"tol": 30.0, "offset": -7.0}}]},                  # constant negative
+    {"vars": [["cm", [-10.0] * 12, [10.0] * 12]], "obj": [{"fam": "rastrigin", "p": {"shift": 0.2}}]},            # 12 dimensions
+    {"vars": [["cm", [0.0] * 30, [10.0] * 30]], "obj": [{"fam": "sphere", "p": {"shift": 0.0}}]},                 # 30 dimensions, zero bounds
+    {"vars": [["cm", [-5.0, -5.0], [5.0, 5.0]]], "obj": [{"fam": "sphere", "p": {"shift": 0.3}}], "cycles": 40},  # long run (convergence)
 ]
 
 
@@ -283,7 +286,7 @@ def battery():
         base["fitness_error"] = None
         for t, task in enumerate(BATTERY_TASKS):
             for d, minmax in enumerate(("min", "max")):
-                cfg = dict(base, max_cycles=(5, 13)[(t + d) % 2])
+                cfg = dict(base, max_cycles=task.get("cycles") or (5, 13)[(t + d) % 2])
                 spec = {"vars": task["vars"], "obj": task["obj"], "weights": None, "minmax": minmax, "seed": 1000 * a + 10 * t + d}
                 out.append({"i": f"b{len(out)}", "opt": opt, "cfg": cfg, "cfg_class": "battery", "spec": spec, "mode": "serial",
                             "workers": None})
